@@ -1058,8 +1058,8 @@ theorem buildFEP_spec (size : Params → Nat) (cfg : Cfg) (l2 : List L2Blk) (hw 
     (agg : List ACert) (hs : SyncUp loc agg) (hl : LastOK cfg agg)
     (hfb : ∀ r x q, lastRow loc = some r → agg.getLast? = some x → Matches r x →
       rowAt loc (r.height - 1) = some q → q.status = .settled → r.height ≠ 0 → q.new = x.prev)
-    (hlf : LastFacts cfg l2 loc agg) (prover : Prover) (c : ACert) (r' tb : Nat)
-    (h : (buildFEP size cfg l2 loc prover).1 = .cert c r' tb) : BuildOK cfg l2 loc agg c tb := by
+    (hlf : LastFacts cfg l2 loc agg) (prover : Prover) (optOn : Bool) (c : ACert) (r' tb : Nat)
+    (h : (buildFEP size cfg l2 loc prover optOn).1 = .cert c r' tb) : BuildOK cfg l2 loc agg c tb := by
   -- the certificate behind the last record, if any
   have hlastx : ∀ r, lastRow loc = some r → ∃ x, agg.getLast? = some x ∧ Matches r x := by
     intro r hr
@@ -1076,10 +1076,11 @@ theorem buildFEP_spec (size : Params → Nat) (cfg : Cfg) (l2 : List L2Blk) (hw 
     obtain ⟨f1, f2, f3⟩ := hlf r x hlast hg hm
     rw [hlast] at h
     simp only at h
-    by_cases herr : r.status = .inError
-    · -- the last certificate is in error: its block range again
+    by_cases herr : r.status = .inError ∧ r.opt = optOn
+    · -- the last certificate is in error (and of the type to generate now): its block range again
       rw [if_pos herr] at h
       simp only at h
+      have herr := herr.1
       have hfrom : FromOK cfg (lastRow loc) r.from_ := by unfold FromOK; rw [hlast]; simp [herr]
       have hft : r.from_ ≤ r.to_ := by rw [hm.from_, hm.to_]; exact f1
       have hto : r.to_ ≤ lastProcessed l2 := by rw [hm.to_]; exact f2
@@ -1093,13 +1094,52 @@ theorem buildFEP_spec (size : Params → Nat) (cfg : Cfg) (l2 : List L2Blk) (hw 
         exact proveAndBuild_spec cfg l2 hw loc agg hs hl hfb _ _ prover hfrom hft hto rfl rfl c r' tb h
     · rw [if_neg herr] at h
       simp only at h
+      by_cases herr2 : r.status = .inError
+      · -- in error, but the certificate type to generate has changed since: a new certificate from the same first block
+        simp only [lastSentBlockAndRetry, herr2, if_true] at h
+        have hpos : r.from_ > 0 := by rw [hm.from_]; omega
+        simp only [hpos, if_true] at h
+        have hfe : r.from_ - 1 + 1 = r.from_ := by omega
+        by_cases hge : r.from_ - 1 ≥ lastProcessed l2
+        · rw [if_pos hge] at h; cases h
+        rw [if_neg hge] at h
+        rw [hfe] at h
+        have hwf : WFp ({
+            from_ := r.from_, to_ := lastProcessed l2, bridges := bridgesIn l2 r.from_ (lastProcessed l2),
+            claims := claimsIn l2 r.from_ (lastProcessed l2), fep := !optOn,
+            retry := (decide (r.retry + 1 > 0) && (some r).isSome) } : Params) :=
+          ⟨by simp only; omega, bridgesIn_inRange l2 hw _ _, claimsIn_inRange l2 hw _ _⟩
+        obtain ⟨q, hq, hcut, hq1, hq2⟩ := limit_cut size cfg.maxSize _ hwf
+        rw [hq] at h
+        simp only at h
+        have qfrom : q.from_ = r.from_ := by rw [hcut]; rfl
+        have hlpi : lastProven cfg.start q.from_ (some r) + 1 = q.from_ := by
+          unfold lastProven
+          have h1 : ¬ r.to_ < cfg.start := by rw [hm.to_]; omega
+          have h2 : r.from_ ≠ 0 := by omega
+          have h3 : ¬ r.from_ - 1 < cfg.start := by rw [hm.from_]; omega
+          simp only [qfrom, h2, if_false, h1, decide_false, Bool.false_eq_true, h3]
+          omega
+        rw [hlpi] at h
+        have hq' : { q with from_ := q.from_ } = q := rfl
+        rw [hq', ← hlast] at h
+        simp only at hq1 hq2
+        refine proveAndBuild_spec cfg l2 hw loc agg hs hl hfb q (r.retry + 1) prover ?_ (by rw [qfrom]; omega) hq2 ?_ ?_ c r' tb h
+        · unfold FromOK; rw [hlast]; simp only [herr2, if_true]; exact qfrom
+        · have := congrArg Params.bridges hcut
+          simp only [cutTo] at this
+          rw [this, qfrom]; exact bridgesIn_narrow l2 hw _ _ _ hq2
+        · have := congrArg Params.claims hcut
+          simp only [cutTo] at this
+          rw [this, qfrom]; exact claimsIn_narrow l2 hw _ _ _ hq2
+      have herr := herr2
       simp only [lastSentBlockAndRetry, herr, if_false] at h
       by_cases hge : r.to_ ≥ lastProcessed l2
       · rw [if_pos hge] at h; cases h
       rw [if_neg hge] at h
       have hwf : WFp ({
           from_ := r.to_ + 1, to_ := lastProcessed l2, bridges := bridgesIn l2 (r.to_ + 1) (lastProcessed l2),
-          claims := claimsIn l2 (r.to_ + 1) (lastProcessed l2), fep := true,
+          claims := claimsIn l2 (r.to_ + 1) (lastProcessed l2), fep := !optOn,
           retry := (decide (0 > 0) && (some r).isSome) } : Params) :=
         ⟨by simp only; omega, bridgesIn_inRange l2 hw _ _, claimsIn_inRange l2 hw _ _⟩
       obtain ⟨q, hq, hcut, hq1, hq2⟩ := limit_cut size cfg.maxSize _ hwf
@@ -1130,7 +1170,7 @@ theorem buildFEP_spec (size : Params → Nat) (cfg : Cfg) (l2 : List L2Blk) (hw 
     simp only [hge, if_false] at h
     have hwf : WFp ({
         from_ := cfg.start + 1, to_ := lastProcessed l2, bridges := bridgesIn l2 (cfg.start + 1) (lastProcessed l2),
-        claims := claimsIn l2 (cfg.start + 1) (lastProcessed l2), fep := true,
+        claims := claimsIn l2 (cfg.start + 1) (lastProcessed l2), fep := !optOn,
         retry := (decide (0 > 0) && (none : Option Row).isSome) } : Params) :=
       ⟨by simp only; omega, bridgesIn_inRange l2 hw _ _, claimsIn_inRange l2 hw _ _⟩
     obtain ⟨q, hq, hcut, hq1, hq2⟩ := limit_cut size cfg.maxSize _ hwf
@@ -1305,8 +1345,18 @@ theorem buildAny_spec (size : Params → Nat) (s : Sys) (hi : Inv s) (hup : s.up
   unfold buildAny at h
   by_cases hf : s.cfg.fep = true
   · rw [if_pos hf] at h
-    exact buildFEP_spec size s.cfg s.l2 hi.l2wf s.loc s.agg hsync hlast (inv_fallback s hi) (inv_lastFacts s hi) s.prover
-      c retry tb h
+    simp only at h
+    cases hb : (buildFEP size s.cfg s.l2 s.loc s.prover s.optOn).1 with
+    | none => rw [hb] at h; simp [markOpt] at h
+    | err => rw [hb] at h; simp [markOpt] at h
+    | cert c0 r0 t0 =>
+      rw [hb] at h
+      simp only [markOpt, Build.cert.injEq] at h
+      obtain ⟨hc, hr, ht⟩ := h
+      have h0 := buildFEP_spec size s.cfg s.l2 hi.l2wf s.loc s.agg hsync hlast (inv_fallback s hi) (inv_lastFacts s hi) s.prover
+        s.optOn c0 r0 t0 hb
+      subst hc; subst ht
+      exact h0
   · rw [if_neg hf] at h
     exact build_spec size s.cfg s.l2 hi.l2wf s.loc s.agg hsync hlast (inv_fallback s hi) c retry tb h
 
@@ -1718,6 +1768,7 @@ theorem step_inv (size : Params → Nat) (s : Sys) (hi : Inv s) (op : Op) (hop :
   | failSub => exact hi.of_eq rfl rfl rfl rfl rfl
   | failRec => exact hi.of_eq rfl rfl rfl rfl rfl
   | prover p => exact hi.of_eq rfl rfl rfl rfl rfl
+  | opt b => exact hi.of_eq rfl rfl rfl rfl rfl
   | crash =>
     refine ⟨hi.l2wf, hi.ids, hi.closedPrefix, hi.chain, hi.sorted, hi.rows, fun h => by simp [step] at h, ?_,
       hi.l2sorted, hi.content, hi.startOK, hi.deposits, hi.counts, hi.fromGe⟩
